@@ -17,7 +17,7 @@ def one(sid):
     meta = json.load(open(os.path.join(d, "meta.json")))
     patch = os.path.join(d, "patch-rebased.diff") if os.path.exists(os.path.join(d, "patch-rebased.diff")) else os.path.join(d, "patch.diff")
     res = []
-    for chk in [x.strip() for x in meta["caught_by"].split(",")][:int(os.environ.get("SWEEP_CHECKS", "1"))]:
+    for chk in [x.strip() for x in re.split(r"[,/ ]+", meta["caught_by"]) if re.fullmatch(r"[CX]\d\d", x.strip())][:int(os.environ.get("SWEEP_CHECKS", "1"))]:
         log = os.path.join(V, "build", "seedsweep", "%s.%s.log" % (sid, chk))
         with open(log, "w") as f:
             subprocess.run([os.path.join(V, "tools", "mutcheck.sh"), patch, chk, "quick"], stdout=f, stderr=subprocess.STDOUT,
